@@ -334,6 +334,44 @@ func runC07(c *Ctx) {
 		c.verdict(len(inPkg) == 0 && len(elsewhere) >= 1, "package headerfs | sub-buckets are never deleted", "-", fmt.Sprintf("no bucket deletion in headerfs (selector control: %d deletion site(s) elsewhere in the module)", len(elsewhere)), "bucket deleted at "+join(inPkg)+fmt.Sprintf(" while addHeaders fails hard on a missing sub-bucket (control sites elsewhere: %d)", len(elsewhere)), append(inPkg, elsewhere...)...)
 	})
 
+	c.rule("C07.O3", "a read delivers what was asked for or fails: readRaw and readHeadersFromFile hand their buffer on only when File.ReadAt reported no error at all (a short read at the end of the file is an error, not a shorter result), and they hand on the whole buffer they allocated", func() {
+		for _, name := range []string{"(*headerfs.headerStore).readRaw", "headerfs.readHeadersFromFile"} {
+			fn := c.fn(name)
+			var reads []ssa.Instruction
+			ir.Instrs(fn, func(in ssa.Instruction) {
+				if cc := ir.CallOf(in); cc != nil {
+					if cal := ir.Resolve(cc); cal.Func != nil && cal.Func.Name() == "ReadAt" {
+						reads = append(reads, in)
+					}
+				}
+			})
+			var okRets []ssa.Instruction
+			for _, r := range find(fn, isExit) {
+				if ir.IsNil(ir.RetVal(r.(*ssa.Return), 1)) {
+					okRets = append(okRets, r)
+				}
+			}
+			c.guarded(fn, errNil("File.ReadAt", reads, 1), 1, "successful return", okRets, 1, gDominate)
+			// the whole buffer
+			okWhole := len(reads) == 1
+			if okWhole {
+				buf := argsOf(reads[0])[0]
+				for _, r := range okRets {
+					v := ir.RetVal(r.(*ssa.Return), 0)
+					whole := ir.InfluencedBy(v, func(x ssa.Value) bool { return x == buf })
+					partial := ir.InfluencedBy(v, func(x ssa.Value) bool {
+						sl, ok := x.(*ssa.Slice)
+						return ok && sl.X == buf && (sl.Low != nil || sl.High != nil)
+					})
+					if !whole || partial {
+						okWhole = false
+					}
+				}
+			}
+			c.verdict(okWhole, c.nm(fn)+" | the buffer that was filled is returned whole", c.P.Pos(fn.Pos()), "same slice as passed to ReadAt", "the result is not the whole buffer handed to ReadAt (a prefix of a short read would be accepted as the range)")
+		}
+	})
+
 	c.rule("C07.G2", "the filter-header store refuses a rollback past genesis before touching anything: in filterHeaderStore.RollbackLastBlock both truncations are reachable only after the header at (tip height - 1) was read successfully (at tip height 0 the subtraction wraps and the read fails) or after an explicit tip-height comparison; a rollback at genesis must not move the index or cut the file", func() {
 		fn := c.fn("(*headerfs.filterHeaderStore).RollbackLastBlock")
 		tip := c.hfs("headerIndex", "chainTip")
